@@ -1,6 +1,7 @@
 package main
 
 import (
+	"go/constant"
 	"go/token"
 
 	"golang.org/x/tools/go/ssa"
@@ -208,3 +209,5 @@ func edgeGuarded(pred, succ *ssa.BasicBlock, from ssa.Instruction, fact EdgePred
 	}
 	return guardedBy(term, from, fact)
 }
+
+func constantInt(k int64) constant.Value { return constant.MakeInt64(k) }
